@@ -78,6 +78,13 @@ def make_data(p):
 
     Xtr, ytr = draw(ctr)
     Xva, yva = draw(cva)
+    if p.get('replicated'):
+        # one design point replicated in 80 % of the training rows (repeated measurements with different outcomes): at
+        # every node the projections have zero inter-quartile range
+        k = int(p['replicated'] * len(Xtr))
+        idx = torch.randperm(len(Xtr), generator=g)[:k]
+        Xtr[idx] = Xtr[idx[0]].clone()
+        Xva[: max(2, len(Xva) // 4)] = Xtr[idx[0]].clone()
     far_dir = torch.randn(4, d, generator=g)
     fresh = torch.randn(8, d, generator=g) * 1.5
     Xq = torch.cat([Xva[:16], fresh, Xtr[:12], Xtr[:6] * 1e3, Xva[:3] * 1e4, Xtr[:8] * 1e6, far_dir * 1e6,
@@ -94,6 +101,9 @@ def build_model(p):
                             'diag': p['diag'], 'bandwidth_mode': 'constant'},
                   'fit': {'reg': 1e-3, 'iters': p['iters'], 'verbose': False, 'return_best_params': p['return_best'],
                           'early_stop_rfm': False}}
+    if p.get('solver_in'):
+        # the logistic leaf solver, configured either with the model parameters or with the fit parameters
+        rfm_params[p['solver_in']]['solver'] = 'log_reg'
     kw = {}
     if p['routing'] == 'soft':
         kw = dict(split_temperature=p['temperature'], use_temperature_tuning=False)
@@ -260,15 +270,19 @@ def run_case(p, drv):
     conv = model.class_converter_
     invA = conv._invA.double().numpy() if mode == 'prevalence' else None
     trees_j, allow_tree, raw_tree, dr_tree = [], [], [], []
+    logit = bool(p.get('solver_in'))
+    deps = 1e-10 if logit else 1e-3               # RFM.predict_proba clamps at 1e-10 after the sigmoid
     width = None
     try:
         for tree, nl in zip(model.trees, n_leaves):
             if hard or nl == 1:
                 raw = model._predict_tree(Xq, tree, proba=False)
                 raw = torch.as_tensor(raw).double().numpy().reshape(nq, -1)
+                if logit:
+                    raw = 1.0 / (1.0 + np.exp(-raw))     # leaves of the logistic solver answer with logits; the decoder starts with the sigmoid
                 width = raw.shape[1]
                 trees_j.append({'kind': 'hard', 'raw': core.fl(raw)})
-                _, a = leaf_decode_allowance(np, raw, mode, invA, K)
+                _, a = leaf_decode_allowance(np, raw, mode, invA, K, eps=deps)
                 allow_tree.append(a)
                 raw_tree.append(raw)
                 dr_tree.append(np.zeros_like(raw))
@@ -289,11 +303,13 @@ def run_case(p, drv):
                         raws.append(None)
                         continue
                     out = torch.as_tensor(leaf.predict(Xq[idx])).double().numpy().reshape(len(idx), -1)
+                    if logit:
+                        out = 1.0 / (1.0 + np.exp(-out))
                     width = out.shape[1]
                     full = np.zeros((nq, width))
                     full[idx.numpy()] = out
                     raws.append(full)
-                    _, al = leaf_decode_allowance(np, full, mode, invA, K)
+                    _, al = leaf_decode_allowance(np, full, mode, invA, K, eps=deps)
                     a += Wd[:, [i]] * al
                     mix = Wd[:, [i]] * full if mix is None else mix + Wd[:, [i]] * full
                     absmix = Wd[:, [i]] * np.abs(full) if absmix is None else absmix + Wd[:, [i]] * np.abs(full)
@@ -307,7 +323,7 @@ def run_case(p, drv):
         trees_j = None
     if trees_j and ok_shape:
         T = len(trees_j)
-        q = {'op': 'ensemble', 'mode': mode, 'eps': core.f2b(1e-3), 'rows': nq, 'trees': trees_j, 'width': width}
+        q = {'op': 'ensemble', 'mode': mode, 'eps': core.f2b(deps), 'rows': nq, 'trees': trees_j, 'width': width}
         if mode == 'prevalence':
             q['invA'] = core.fl(invA)
         m = drv.ask(q)
@@ -325,12 +341,14 @@ def run_case(p, drv):
             # labels: decode of the averaged raw outputs; skip rows whose top two are within the allowance
             rawmean = sum(raw_tree) / T
             d_in = sum(dr_tree) / T + (T + 3) * U32 * sum(np.abs(r) for r in raw_tree) / T
-            _, al = leaf_decode_allowance(np, rawmean, mode, invA, K, delta_in=d_in)
+            _, al = leaf_decode_allowance(np, rawmean, mode, invA, K, eps=deps, delta_in=d_in)
             lp = np.array(core.unfl(m['labelProbs'])).reshape(nq, K)
             srt = np.sort(lp, 1)
             tie = (srt[:, -1] - srt[:, -2]) <= 2 * al.max(1)
             ml = np.array(m['labels'])
-            if Lb.shape == (nq,):
+            # logistic leaves: the label is the sign of the averaged logit, which the decoded average of the per-leaf
+            # probabilities determines only for one hard-routed tree
+            if Lb.shape == (nq,) and (not logit or (hard and T == 1)):
                 wrong = (ml != Lb) & ~tie
                 res['_label_ties'] = int(tie.sum())
                 if wrong.any():
@@ -406,6 +424,30 @@ def gen_cases(run):
                           exponent=r.choice([1.0, 1.0, 1.2]), diag=r.random() < 0.25, iters=r.randint(0, 2),
                           return_best=r.random() < 0.7, dseed=r.randint(0, 10 ** 6), mseed=r.randint(0, 10 ** 6),
                           refit_first=(r.choice([q for q in PROFILES if q != profile]) if (i % 6 == 5 and metric != 'auc') else None)))
+    # binary problems with the logistic leaf solver (zero_one encoding), configured in either parameter group
+    for i in range(12 if run.tier == 'quick' else 200):
+        n = r.randint(80, 240)
+        n_val = int(n * 0.45)
+        single = i % 3 == 0
+        cases.append(dict(family='fitted-classifiers', K=2, mode='zero_one', metric=[None, 'accuracy', 'brier', 'logloss'][i % 4],
+                          profile=['balanced', 'imbalanced'][(i // 2) % 2] if 'imbalanced' in PROFILES else PROFILES[i % len(PROFILES)],
+                          routing=ROUTINGS[i % len(ROUTINGS)] if not single else 'hard', temperature=r.choice([0.2, 0.7]),
+                          n_trees=[1, 1, 2][i % 3], n_train=n - n_val, n_val=n_val, d=r.randint(2, 5),
+                          max_leaf_size=BIG_LEAF if single else r.randint(24, 40), sep=r.choice([0.6, 1.0]),
+                          kernel=r.choice(['l2', 'l1', 'l2_high_dim']), bandwidth=r.choice([3.0, 10.0]), exponent=1.0, diag=False,
+                          iters=r.randint(0, 1), return_best=True, dseed=r.randint(0, 10 ** 6), mseed=r.randint(0, 10 ** 6),
+                          refit_first=None, solver_in=['model', 'fit'][i % 2]))
+    # a heavily replicated design point: zero spread of the projections at every split node
+    for i in range(8 if run.tier == 'quick' else 96):
+        K = [2, 3][i % 2]
+        n = r.randint(120, 240)
+        n_val = int(n * 0.45)
+        cases.append(dict(family='fitted-classifiers', K=K, mode=['zero_one', 'prevalence'][(i // 2) % 2], metric=[None, 'brier'][(i // 4) % 2],
+                          profile='balanced', routing=['soft', 'tuned', 'soft', 'hard'][i % 4], temperature=r.choice([0.05, 0.3, 1.0]),
+                          n_trees=[1, 2][i % 2], n_train=n - n_val, n_val=n_val, d=r.randint(2, 5), max_leaf_size=r.randint(24, 40),
+                          sep=1.0, kernel=r.choice(['l2', 'l1']), bandwidth=r.choice([3.0, 10.0]), exponent=1.0, diag=False,
+                          iters=r.randint(0, 1), return_best=True, dseed=r.randint(0, 10 ** 6), mseed=r.randint(0, 10 ** 6),
+                          refit_first=None, replicated=0.8))
     return cases
 
 
